@@ -2077,7 +2077,7 @@ fn main() {
             run_sequence(&mut out, &sv, &probe, 0, &reqs, params);
         }
     } else {
-        let nseq = if args.thorough() { 1400 } else { 104 };
+        let nseq = if args.thorough() { 1000 } else { 104 };
         let stop = Arc::new(std::sync::atomic::AtomicBool::new(false));
         let bad = Arc::new(Mutex::new(Vec::<String>::new()));
         let seen = Arc::new(std::sync::atomic::AtomicU64::new(0));
